@@ -6,8 +6,7 @@ set -u
 id="$1"; wt=/tmp/wtseed; sd=/verif/seeded/$id
 cd $wt || exit 9
 if [ "${2:-}" = "fuzz" ]; then git checkout -q -- .; git clean -fdq; patch -p1 -s --fuzz=3 < $sd/patch.diff || exit 9; find . -name "*.orig" -delete; fi
-[ -f $sd/patch.orig.diff ] || cp $sd/patch.diff $sd/patch.orig.diff
-git diff > $sd/patch.diff
+git diff > /tmp/scratch/$id.rebased.diff
 /venv/bin/python $sd/demo.py > /tmp/scratch/$id.mut.log 2>&1; mut=$?
 summary=$(/venv/bin/python -m pytest -q -p no:cacheprovider --timeout=900 2>&1 | tail -1)
 git checkout -q -- .; git clean -fdq
@@ -15,6 +14,8 @@ git checkout -q -- .; git clean -fdq
 head=$(git -C /repo rev-parse --short HEAD)
 echo "$id: demo changed rc=$mut clean rc=$clean [$summary]"
 if [ $mut -ne 0 ] && [ $clean -eq 0 ] && [[ "$summary" == *"3 failed, 236 passed"* ]]; then
+[ -f $sd/patch.orig.diff ] || cp $sd/patch.diff $sd/patch.orig.diff
+cp /tmp/scratch/$id.rebased.diff $sd/patch.diff
 /venv/bin/python - "$sd/meta.json" "$head" <<'PY'
 import json,sys
 p,head=sys.argv[1:3]
